@@ -23,7 +23,7 @@ keys = {}
 for c in checks:
     p = os.path.join(cand, 'check.%s.out' % c)
     if os.path.exists(p):
-        keys[c] = re.findall(r'^\s+key=(\S+)', open(p).read(), re.M)[:12]
+        keys[c] = re.findall(r'^\s+key=(\S+)', open(p, errors='replace').read(), re.M)[:12]
 meta = {
     'id': sid,
     'property': src.get('property'),
